@@ -458,7 +458,16 @@ def sympy_of_tree(t):
             cur = cur[2]
         args.append(cur)
         args = [sympy_of_tree(x) for x in reversed(args)]
-        return (sympy.Max if op == "max" else sympy.Min)(*args)
+        cls = sympy.Max if op == "max" else sympy.Min
+        try:
+            return cls(*args)
+        except TypeError:
+            # without evaluation SymPy cannot sort three or more arguments when one is an infinity ("cannot determine truth value of
+            # Relational: oo < 2" for max(max(2, 64), min())); two at a time works, and struct_sig flattens nested Max / Min anyway
+            cur = args[0]
+            for a in args[1:]:
+                cur = cls(cur, a)
+            return cur
     a, b = sympy_of_tree(t[2]), sympy_of_tree(t[3])
     return {
         "add": lambda: a + b,
